@@ -1,1 +1,7 @@
-//! Kani harnesses compiled inside radicle-node (module `verif_kani` of the hooked file).
+//! Kani harnesses compiled inside `radicle_node::worker` (module `verif_kani`).
+//!
+//! Nothing is registered here: the git request header parser (`upload_pack::pktline`) could not be
+//! encoded - with a symbolic *or* literal length field CBMC does not propagate the header digits
+//! through `read_exact` into `str::from_utf8` / `usize::from_str_radix`, treats the packet length
+//! as unknown and unwinds UTF-8 validation and `memchr` over the 1024-byte buffer; no layout
+//! finished within 15 min (DESIGN §8).  C12 and the pkt-line part of C13 are therefore outside.
